@@ -166,3 +166,51 @@ def run_in_fork(fn, arg, wall_timeout: float = 60.0):
         return json.loads(raw)
     except ValueError:
         return {"harness": "crash", "status": status, "raw": raw[:200].decode("latin1")}
+
+
+def parallel_map(fn, items, workers, wall_timeout=120.0):
+    """[run_in_fork(fn, x) for x in items] spread over `workers` forked helpers; order preserved. Each item still runs in its
+    own fresh fork of this (pristine) process."""
+    items = list(items)
+    if not items:
+        return []
+    workers = max(1, min(workers, len(items)))
+    pipes = {}
+    pids = []
+    for w in range(workers):
+        r, wfd = os.pipe()
+        pid = os.fork()
+        if pid == 0:
+            code = 0
+            try:
+                os.close(r)
+                out = [run_in_fork(fn, x, wall_timeout) for x in items[w::workers]]
+                with os.fdopen(wfd, "wb") as f:
+                    f.write(json.dumps(out).encode())
+            except BaseException:  # noqa: BLE001
+                code = 3
+            finally:
+                os._exit(code)
+        os.close(wfd)
+        pipes[r] = (w, [])
+        pids.append(pid)
+    openfds = set(pipes)
+    while openfds:
+        ready, _, _ = select.select(list(openfds), [], [], 5.0)
+        for fd in ready:
+            b = os.read(fd, 1 << 20)
+            if b:
+                pipes[fd][1].append(b)
+            else:
+                openfds.discard(fd)
+                os.close(fd)
+    for pid in pids:
+        os.waitpid(pid, 0)
+    res = [None] * len(items)
+    for w, chunks in pipes.values():
+        raw = b"".join(chunks)
+        if not raw:
+            raise HarnessError("parallel_map helper died")
+        for j, v in enumerate(json.loads(raw)):
+            res[w + j * workers] = v
+    return res
